@@ -1,4 +1,216 @@
-import SgModel.Model.PV
+import SgModel.Lemmas.PV
+import SgModel.Lemmas.PVF64
+import SgModel.Lemmas.PVCypher
+/-!
+# C10 — property values are ordered by lawful total orders
+
+Property theorems only (helpers: `Lemmas/PV.lean`, `Lemmas/PVF64.lean`, `Lemmas/PVCypher.lean`).  Every theorem
+quantifies over **all** values `a b c : PV` — arbitrarily nested arrays and maps (mutual
+structural induction), every float bit pattern, every integer — nothing is bounded.
+
+`cmp` / `cypherOrder` model the code after the `fix:` commit; `cmpLegacy` the pinned tree.
+`beq` models the derived `PartialEq` (IEEE on floats and vector lanes), which the repair
+does **not** change (Cypher's `=` is evaluated with it): the agreement of `==` with the
+order and with `Hash` is therefore proved *exactly* (`C10_beq_iff`: `a == b` iff `a` has no
+NaN and the two are bit-identical up to signs of zeros) and, as the property states it,
+only on the complementary class (`…_partial`, values without NaN and without `-0.0`).
+-/
 namespace SgModel.PV
-theorem C10_placeholder : True := trivial
+
+/-- the integer→float conversion of the model (`i64 as f64`, round to nearest even) is
+monotone and never NaN — the one piece of float reasoning the order laws rest on -/
+theorem C10_cast_ok : CastOK F64.cast := ⟨F64.cast_mono, F64.cast_noNaN⟩
+
+/-! ## the index order is a lawful strict total order -/
+
+/-- reflexive -/
+theorem C10_cmp_refl (a : PV) : cmp a a = .eq :=
+  (cmpG_eq_iff (numOK_of_castOK C10_cast_ok) a a).2 rfl
+
+/-- `cmp b a` is the mirror image of `cmp a b`: antisymmetric and total -/
+theorem C10_cmp_antisymm (a b : PV) : cmp b a = (cmp a b).swap :=
+  cmpG_swap (numOK_of_castOK C10_cast_ok) a b
+
+/-- total: any two values are comparable, and exactly one of `<`, `=`, `>` holds -/
+theorem C10_cmp_total (a b : PV) : cmp a b = .lt ∨ cmp a b = .eq ∨ cmp b a = .lt := by
+  rw [C10_cmp_antisymm a b]; cases cmp a b <;> simp [Ordering.swap]
+
+/-- `Equal` exactly on bit-identical values (in particular `Integer(2)` and `Float(2.0)`,
+`0.0` and `-0.0`, two NaNs with different payloads are all distinct keys) -/
+theorem C10_cmp_eq_iff_identical (a b : PV) : cmp a b = .eq ↔ a = b :=
+  cmpG_eq_iff (numOK_of_castOK C10_cast_ok) a b
+
+/-- transitive (strict part) -/
+theorem C10_cmp_trans (a b c : PV) (h1 : cmp a b = .lt) (h2 : cmp b c = .lt) : cmp a c = .lt :=
+  cmpG_trans (numOK_of_castOK C10_cast_ok) a b c h1 h2
+
+/-- transitive (non-strict form: `a ≤ b ≤ c → a ≤ c`) -/
+theorem C10_cmp_trans_le (a b c : PV) (h1 : cmp a b ≠ .gt) (h2 : cmp b c ≠ .gt) : cmp a c ≠ .gt := by
+  rcases hab : cmp a b with _ | _ | _
+  · rcases hbc : cmp b c with _ | _ | _
+    · rw [C10_cmp_trans a b c hab hbc]; simp
+    · rw [← (C10_cmp_eq_iff_identical b c).1 hbc, hab]; simp
+    · exact absurd hbc h2
+  · rw [(C10_cmp_eq_iff_identical a b).1 hab]; exact h2
+  · exact absurd hab h1
+
+/-- the same laws hold for *any* integer→float conversion that is monotone and NaN-free
+(the abstract statement that `C10_cmp_trans` instantiates with `F64.cast`) -/
+theorem C10_cmp_trans_abstract (cast : Int → Nat) (hc : CastOK cast) (a b c : PV)
+    (h1 : cmpC cast a b = .lt) (h2 : cmpC cast b c = .lt) : cmpC cast a c = .lt :=
+  cmpG_trans (numOK_of_castOK hc) a b c h1 h2
+
+/-! ## agreement with value equality and with `Hash` -/
+
+/-- exact characterisation of the derived `==`: `a == b` iff `a` contains no NaN and the two
+values are bit-identical after replacing every `-0.0` by `+0.0` -/
+theorem C10_beq_iff (a b : PV) : beq a b = true ↔ (noNaN a = true ∧ normZero a = normZero b) :=
+  beq_iff a b
+
+/-- PARTIAL (class excluded: values containing a NaN or a negative zero — known findings
+`eq-ord-nan`, `eq-ord-signed-zero`).  Full statement, false for the code as it stands:
+`∀ a b, cmp a b = .eq ↔ beq a b = true`. -/
+theorem C10_cmp_eq_iff_beq_partial (a b : PV) (ha : tame a = true) (hb : tame b = true) :
+    cmp a b = .eq ↔ beq a b = true := by
+  simp only [tame, Bool.and_eq_true, same_iff] at ha hb
+  rw [C10_cmp_eq_iff_identical, C10_beq_iff, ha.2, hb.2]
+  exact ⟨fun h => ⟨ha.1, h⟩, fun h => h.2⟩
+
+/-- equal values feed the same word sequence to the hasher, up to signs of zeros (hence equal
+hashes under any hasher once `-0.0` is normalised) -/
+theorem C10_beq_hash_normalised (a b : PV) (h : beq a b = true) :
+    hashKey (normZero a) = hashKey (normZero b) := by
+  rw [((C10_beq_iff a b).1 h).2]
+
+/-- PARTIAL (class excluded: values containing a negative zero — known finding
+`eq-hash-signed-zero`).  Full statement, false for the code as it stands:
+`∀ a b, beq a b = true → hashKey a = hashKey b`. -/
+theorem C10_beq_hash_partial (a b : PV) (ha : tame a = true) (hb : tame b = true)
+    (h : beq a b = true) : hashKey a = hashKey b := by
+  simp only [tame, Bool.and_eq_true, same_iff] at ha hb
+  have := C10_beq_hash_normalised a b h
+  rwa [ha.2, hb.2] at this
+
+/-- values the order identifies hash identically (no exception) -/
+theorem C10_cmp_eq_hash (a b : PV) (h : cmp a b = .eq) : hashKey a = hashKey b := by
+  rw [(C10_cmp_eq_iff_identical a b).1 h]
+
+/-! ## the ORDER BY order (`cypher_order`) is a total preorder -/
+
+/-- reflexive -/
+theorem C10_cypher_refl (a : PV) : cypherOrder a a = .eq :=
+  cy_refl (numOK_of_castOK C10_cast_ok) a
+
+/-- `cypher_order(b, a)` is the mirror image of `cypher_order(a, b)`: total, and ties are symmetric -/
+theorem C10_cypher_antisymm (a b : PV) : cypherOrder b a = (cypherOrder a b).swap :=
+  cy_swap (numOK_of_castOK C10_cast_ok) a b
+
+/-- total -/
+theorem C10_cypher_total (a b : PV) : cypherOrder a b ≠ .gt ∨ cypherOrder b a ≠ .gt := by
+  rw [C10_cypher_antisymm a b]; cases cypherOrder a b <;> simp [Ordering.swap]
+
+/-- transitive, with ties: `<`/`<`, `<`/`=`, `=`/`<` compose to `<`, and `=`/`=` to `=`
+(so "sorts equal" is an equivalence compatible with the order) -/
+theorem C10_cypher_trans_cases (a b c : PV) :
+    (cypherOrder a b = .lt → cypherOrder b c = .lt → cypherOrder a c = .lt) ∧
+    (cypherOrder a b = .lt → cypherOrder b c = .eq → cypherOrder a c = .lt) ∧
+    (cypherOrder a b = .eq → cypherOrder b c = .lt → cypherOrder a c = .lt) ∧
+    (cypherOrder a b = .eq → cypherOrder b c = .eq → cypherOrder a c = .eq) :=
+  cy_T4 (numOK_of_castOK C10_cast_ok) a b c
+
+/-- transitive (`a ≤ b ≤ c → a ≤ c`) -/
+theorem C10_cypher_trans_le (a b c : PV) (h1 : cypherOrder a b ≠ .gt) (h2 : cypherOrder b c ≠ .gt) :
+    cypherOrder a c ≠ .gt := by
+  obtain ⟨t1, t2, t3, t4⟩ := C10_cypher_trans_cases a b c
+  cases hab : cypherOrder a b <;> cases hbc : cypherOrder b c <;> simp_all
+
+/-- `cypher_order` is a total preorder -/
+theorem C10_cypher_total_preorder :
+    (∀ a, cypherOrder a a ≠ .gt) ∧
+    (∀ a b, cypherOrder a b ≠ .gt ∨ cypherOrder b a ≠ .gt) ∧
+    (∀ a b c, cypherOrder a b ≠ .gt → cypherOrder b c ≠ .gt → cypherOrder a c ≠ .gt) :=
+  ⟨fun a => by rw [C10_cypher_refl]; simp, C10_cypher_total, C10_cypher_trans_le⟩
+
+/-- every NaN sorts after every other number, whatever its sign, and all NaNs tie -/
+example : cypherOrder (.int 0) (.flt 0xFFF8000000000000) = .lt
+    ∧ cypherOrder (.flt 0x7FF0000000000000) (.flt 0xFFF8000000000000) = .lt
+    ∧ cypherOrder (.flt 0x7FF8000000000000) (.flt 0xFFF0000000000001) = .eq
+    ∧ cypherOrder (.flt 0xFFF8000000000000) (.dt 0) = .lt := by decide
+
+/-! ## the model satisfies the executable specification the harness evaluates on the code -/
+
+/-- order laws, for every triple of values (no exception): these are the checks the harness
+applies to the real `cmp` / `cypher_order` results -/
+theorem C10_model_refines_spec (a b c : PV) :
+    lawRefl (cmp a a) = true ∧ lawSwap (cmp a b) (cmp b a) = true
+    ∧ lawTrans (cmp a b) (cmp b c) (cmp a c) = true
+    ∧ lawRefl (cypherOrder a a) = true ∧ lawSwap (cypherOrder a b) (cypherOrder b a) = true
+    ∧ lawTrans (cypherOrder a b) (cypherOrder b c) (cypherOrder a c) = true := by
+  refine ⟨?_, ?_, ?_, ?_, ?_, ?_⟩
+  · simp [lawRefl, C10_cmp_refl]
+  · simp [lawSwap, C10_cmp_antisymm a b]
+  · exact lawTrans_of_T4 (T4_cmpG (numOK_of_castOK C10_cast_ok) a b c)
+  · simp [lawRefl, C10_cypher_refl]
+  · simp [lawSwap, C10_cypher_antisymm a b]
+  · exact lawTrans_of_T4 (C10_cypher_trans_cases a b c)
+
+/-- PARTIAL (same excluded class as above): the equality/hash laws of the specification, on
+values without NaN and without negative zero. -/
+theorem C10_model_refines_spec_eq_partial (a b : PV) (ha : tame a = true) (hb : tame b = true) :
+    lawEqOrd (cmp a b) (beq a b) = true
+    ∧ lawEqHash (beq a b) (decide (hashKey a = hashKey b)) = true := by
+  constructor
+  · have := C10_cmp_eq_iff_beq_partial a b ha hb
+    cases h1 : cmp a b <;> cases h2 : beq a b <;> simp_all [lawEqOrd]
+  · cases h2 : beq a b
+    · simp [lawEqHash]
+    · simp [lawEqHash, C10_beq_hash_partial a b ha hb h2]
+
+/-- the pinned `cypher_order` inherited the cycle wherever it falls back to the index order
+(maps): `{a:-NaN} < {a:-1.0} < {a:0} < {a:-NaN}` -/
+theorem C10_counterexample_cypher_trans :
+    cypherOrderLegacy (.map (.cons [97] (.flt 0xFFF8000000000000) .nil)) (.map (.cons [97] (.flt 0xBFF0000000000000) .nil)) = .lt
+    ∧ cypherOrderLegacy (.map (.cons [97] (.flt 0xBFF0000000000000) .nil)) (.map (.cons [97] (.int 0) .nil)) = .lt
+    ∧ cypherOrderLegacy (.map (.cons [97] (.int 0) .nil)) (.map (.cons [97] (.flt 0xFFF8000000000000) .nil)) = .lt := by
+  decide
+
+/-! ## defects of the pinned tree (witnesses replayed on the real code by `corpus/C10`) -/
+
+/-- `-NaN < -1.0 < 0 < -NaN` -/
+theorem C10_counterexample_trans :
+    cmpLegacy (.flt 0xFFF8000000000000) (.flt 0xBFF0000000000000) = .lt
+    ∧ cmpLegacy (.flt 0xBFF0000000000000) (.int 0) = .lt
+    ∧ cmpLegacy (.int 0) (.flt 0xFFF8000000000000) = .lt := by decide
+
+/-- the repaired order on the same triple -/
+example : cmp (.flt 0xFFF8000000000000) (.flt 0xBFF0000000000000) = .lt
+    ∧ cmp (.flt 0xBFF0000000000000) (.int 0) = .lt
+    ∧ cmp (.flt 0xFFF8000000000000) (.int 0) = .lt := by decide
+
+/-- NaN is not `==` to itself although the order says `Equal` (still the case: known finding) -/
+theorem C10_counterexample_eq_nan :
+    cmp (.flt 0x7FF8000000000000) (.flt 0x7FF8000000000000) = .eq
+    ∧ beq (.flt 0x7FF8000000000000) (.flt 0x7FF8000000000000) = false
+    ∧ beq (.vec [0x7FC00000]) (.vec [0x7FC00000]) = false := by decide
+
+/-- `0.0 == -0.0` although the order separates them (known finding) -/
+theorem C10_counterexample_eq_zero :
+    beq (.flt 0) (.flt 0x8000000000000000) = true ∧ cmp (.flt 0) (.flt 0x8000000000000000) = .gt
+    ∧ beq (.vec [0]) (.vec [0x80000000]) = true ∧ cmp (.vec [0]) (.vec [0x80000000]) = .lt := by
+  decide
+
+/-- `0.0 == -0.0` but they feed different words to the hasher (known finding) -/
+theorem C10_counterexample_hash_zero :
+    beq (.flt 0) (.flt 0x8000000000000000) = true
+    ∧ hashKey (.flt 0) ≠ hashKey (.flt 0x8000000000000000) := by decide
+
+/-- the hypotheses of the `_partial` theorems are satisfiable by non-trivial values -/
+example : tame (.arr (.cons (.flt 0x3FF0000000000000)
+    (.cons (.map (.cons [97] (.vec [0x3F800000]) .nil)) .nil))) = true := by decide
+
+/-- 2^53 boundary: `Integer(2^53+1)` rounds to `Float(2^53)` and ties break toward the integer -/
+example : cmp (.int 9007199254740993) (.flt 0x4340000000000000) = .lt
+    ∧ cmp (.flt 0x4340000000000000) (.int 9007199254740993) = .gt
+    ∧ cmp (.int 9007199254740992) (.int 9007199254740993) = .lt := by decide
+
 end SgModel.PV
